@@ -52,7 +52,7 @@ var expectedProbes = map[string][]string{
 	"C01": {"program.nesting_depth_3", "program.jump_inside_nested_body", "program.options_end_a_body", "world.nodes_over_several_readers", "world.command_polled_while_pending", "world.hub_loop", "program.block_chain_6_to_12_deep", "world.size_outlier"},
 	"C03": {"world_with_failing_statement", "world_with_host_write", "storer_history", "storer_history_with_two_type_switches_on_one_name", "continued_after_failing_statement"},
 	"C06": {"fault_requiring_error", "fault_with_open_outcome", "handler_with_an_unusual_channel_result", "markup_world_run_without_a_model"},
-	"C07": {"receiver.FRESH", "receiver.READY", "receiver.CHOOSING", "receiver.PENDING", "receiver.ENDED", "receiver.sibling_path", "receiver.restored_before", "two_receivers_of_one_snapshot", "restored_from_a_rebuilt_copy_of_the_snapshot", "restore_of_a_hollow_snapshot_refused", "start_in_an_untitled_node_with_nothing_to_save", "tens_of_thousands_of_silent_statements", "restored_from_a_snapshot_taken_inside_a_host_callback", "two_nodes_share_the_start_nodes_title", "second_generation_snapshot_restored"},
+	"C07": {"receiver.FRESH", "receiver.READY", "receiver.CHOOSING", "receiver.PENDING", "receiver.ENDED", "receiver.sibling_path", "receiver.restored_before", "two_receivers_of_one_snapshot", "restored_from_a_rebuilt_copy_of_the_snapshot", "restore_of_a_hollow_snapshot_attempted", "start_in_an_untitled_node_with_nothing_to_save", "tens_of_thousands_of_silent_statements", "restored_from_a_snapshot_taken_inside_a_host_callback", "two_nodes_share_the_start_nodes_title", "second_generation_snapshot_restored"},
 	"C09": {"trace_with_error_texts", "seeded_run_with_a_restore"},
 	"C10": {"shape.raw_prefilled", "shape.raw_buffered", "shape.raw_unbuffered", "shape.conv_none", "shape.conv_error", "shape.conv_chan", "shape.conv_rochan", "wait_polled_one_tick_before_deadline", "command_error_surfaced", "command_polled_over_1000_times"},
 	"C11": {"node_left_three_times", "untracked_node_visited", "restore_then_jump", "world_with_failing_jumps", "node_left_over_127_times", "pass_through_node_traversed", "restore_refused_then_counting_goes_on", "node_title_ending_in_white_space", "two_nodes_share_the_start_nodes_title"},
